@@ -305,7 +305,8 @@ func c07ServiceEvents(c *core.Ctx, p c04Params) {
 			what = "TokenEventWithID(" + cid + ")"
 			try(func() { rg.S.TokenEventWithID(cid, []string{"", "tid1", "t\"x"}[r.Intn(3)], scriptValue(vk)) })
 		case 2:
-			subj := []string{"auth.svc.m.1.relogin", "svc.x", "a"}[r.Intn(3)]
+			// also subjects a token reset cannot be sent on (empty, wildcards, empty tokens, a space): refused
+			subj := []string{"auth.svc.m.1.relogin", "svc.x", "a", "", "auth.svc.*", "auth.>", "auth..x", "auth.svc x", ".", "auth.svc."}[r.Intn(10)]
 			tids := [][]string{{"a"}, {"a", "b\"c"}, {}, nil, {""}}[r.Intn(5)]
 			what = fmt.Sprintf("TokenReset(%s,%v)", subj, tids)
 			try(func() { rg.S.TokenReset(subj, tids...) })
